@@ -255,7 +255,17 @@ func c10R2(c *Ctx) {
 				out = append(out, cc.Args[1])
 			}
 			if f := cc.StaticCallee(); f != nil && funcSimpleName(f) == method {
-				out = append(out, cc.Args[len(cc.Args)-1])
+				// the argument of dependency-type type, wherever it stands in the parameter list
+				picked := false
+				for _, a := range cc.Args {
+					if strings.HasSuffix(a.Type().String(), "dgraph.DependencyType") {
+						out = append(out, a)
+						picked = true
+					}
+				}
+				if !picked {
+					out = append(out, cc.Args[len(cc.Args)-1])
+				}
 			}
 		})
 		return out
@@ -407,6 +417,14 @@ func c10R4(c *Ctx) {
 			b, ok := cond.(*ssa.BinOp)
 			return ok && b.Op == token.EQL && isNilConst(b.Y)
 		}) != nil
+		if !nilGuard {
+			// `switch { case provided != nil: …; case required: return error }`: the required test is on the false edge
+			// of the presence test
+			nilGuard = guardedBy(ifi, false, func(cond ssa.Value) bool {
+				b, ok := cond.(*ssa.BinOp)
+				return ok && b.Op == token.NEQ && isNilConst(b.Y)
+			}) != nil
+		}
 		p := c.findPathFrom(r.Block.Succs[0], 0, func(in ssa.Instruction) bool {
 			ret, ok := in.(*ssa.Return)
 			return ok && !isNilConst(retResults(ret)[0])
@@ -436,8 +454,20 @@ func c10R4(c *Ctx) {
 	if pv != nil {
 		okV := false
 		eachInstr(pv, func(r instrRef) {
-			if call, ok := r.I.(*ssa.Call); ok && isMethodNamed(call, "schema.PropertySchema", "ValidateCompatibility") && c.returnedDirectly(call) {
+			call, ok := r.I.(*ssa.Call)
+			if !ok {
+				return
+			}
+			if isMethodNamed(call, "schema.PropertySchema", "ValidateCompatibility") && c.returnedDirectly(call) {
 				okV = true
+			}
+			// the guarded call lives in a helper whose result is returned as it is
+			if h := call.Common().StaticCallee(); h != nil && isRepoFn(h) && len(h.Blocks) > 0 && c.returnedDirectly(call) {
+				eachInstr(h, func(r2 instrRef) {
+					if c2, ok := r2.I.(*ssa.Call); ok && isMethodNamed(c2, "schema.PropertySchema", "ValidateCompatibility") && c.returnedDirectly(c2) {
+						okV = true
+					}
+				})
 			}
 		})
 		c.verdict(okV, rule, "compatibility-verdict", c.pos(pv.Pos()), "preValidateCompatibility returns the schema's verdict", "preValidateCompatibility does not return the result of ValidateCompatibility")
